@@ -24,6 +24,7 @@ import (
 	"github.com/logrange/logrange/pkg/model/tag"
 	"github.com/logrange/logrange/pkg/tindex"
 	"github.com/logrange/logrange/pkg/tmindex"
+	"github.com/logrange/logrange/pkg/utils/verifhook"
 	"github.com/logrange/range/pkg/records/chunk"
 	"github.com/logrange/range/pkg/records/chunk/chunkfs"
 	"github.com/logrange/range/pkg/records/journal"
@@ -202,6 +203,7 @@ func (s *Service) Write(ctx context.Context, tags string, lit model.Iterator, no
 	}
 
 	if weInit && !noEvent {
+		verifhook.At("partition.write.beforeNotify")
 		s.onWriteEvent(we)
 	}
 
@@ -589,6 +591,7 @@ func (s *Service) truncate(ctx context.Context, jrnl journal.Journal, tp *Trunca
 	}
 
 	size := jrnl.Size()
+	verifhook.At("partition.truncate.sized")
 	isize := size
 	idx := 0
 	s.logger.Debug("truncate(): ", jrnl, " has ", len(cks), " chunks, with total size=", size)
